@@ -12,6 +12,12 @@ use crate::l2_core::*;
 verus! {
 
 //@@ item src/uint/div_limb.rs | struct Reciprocal
+#[derive(Copy, Clone)]
+pub struct Reciprocal {
+    pub divisor_normalized: Word,
+    pub shift: u32,
+    pub reciprocal: Word,
+}
 //@@ end
 impl Reciprocal {
     /// the Moeller-Granlund reciprocal relation: v = floor((B^2 - 1) / d) - B for a normalised d
@@ -21,6 +27,270 @@ impl Reciprocal {
     }
     /// the divisor this reciprocal was built for
     pub open spec fn dv(&self) -> int { self.divisor_normalized as int / p2(self.shift as nat) }
+}
+
+// ---------------------------------------------------------------- div2by1 (Moeller-Granlund, Algorithm 4)
+/// b*rt == u1*k + u0*(b-d) + q0*d - b*d   (symbolic b)
+proof fn lemma_d21_identity(b: int, u1: int, u0: int, d: int, v: int, q1p: int, q0: int, k: int, rt: int)
+    requires rt == u1 * b + u0 - (q1p + 1) * d, k == b * b - (b + v) * d, q1p * b + q0 == (b + v) * u1 + u0
+    ensures b * rt == u1 * k + u0 * (b - d) + q0 * d - b * d
+{
+    let x = q1p * b; let y = (b + v) * u1; let bb = b * b; let z = (b + v) * d;
+    assert(b * rt == u1 * bb + u0 * b - x * d - b * d) by (nonlinear_arith)
+        requires rt == u1 * b + u0 - (q1p + 1) * d, x == q1p * b, bb == b * b;
+    assert(x * d == y * d + u0 * d - q0 * d) by (nonlinear_arith) requires x == y + u0 - q0;
+    assert(u1 * k == u1 * bb - u1 * z) by (nonlinear_arith) requires k == bb - z;
+    assert(u1 * z == y * d) by (nonlinear_arith) requires z == (b + v) * d, y == (b + v) * u1;
+    assert(u0 * (b - d) == u0 * b - u0 * d) by (nonlinear_arith);
+}
+
+/// u1 < d, u0 < b  ==>  u1*b + u0 < d*b   (symbolic b)
+proof fn lemma_d21_uu_bound(b: int, u1: int, u0: int, d: int)
+    requires u1 <= d - 1, u0 < b, b > 0
+    ensures u1 * b + u0 < d * b
+{
+    assert(u1 * b <= (d - 1) * b) by (nonlinear_arith) requires u1 <= d - 1, b > 0;
+    assert((d - 1) * b == d * b - b) by (nonlinear_arith);
+}
+
+/// Theorem 2 of Moeller-Granlund: bounds of the candidate remainder rt = u - (q1p + 1) d
+proof fn lemma_div2by1(u1: int, u0: int, d: int, v: int, q1p: int, q0: int)
+    requires
+        B() / 2 <= d < B(), 0 <= v < B(), 0 <= u1 < d, 0 <= u0 < B(),
+        (B() + v) * d <= B() * B() - 1,
+        B() * B() - 1 < (B() + v) * d + d,
+        0 <= q0 < B(),
+        q1p * B() + q0 == (B() + v) * u1 + u0,
+    ensures
+        0 <= q1p < B(),
+        ({ let rt = u1 * B() + u0 - (q1p + 1) * d;
+           &&& rt >= -d
+           &&& rt >= q0 + 1 - B()
+           &&& (rt < B() - d || rt < q0) }),
+{
+    let b = B();
+    let k = b * b - (b + v) * d;
+    assert(1 <= k <= d);
+    assert((b + v) * u1 <= (b + v) * (d - 1)) by (nonlinear_arith) requires u1 <= d - 1, b + v >= 0;
+    assert((b + v) * (d - 1) == (b + v) * d - (b + v)) by (nonlinear_arith);
+    assert(q1p * b + q0 < b * b);
+    assert(q1p < b) by (nonlinear_arith) requires q1p * b + q0 < b * b, q0 >= 0, b > 0;
+    assert(q1p >= 0) by (nonlinear_arith) requires q1p * b + q0 >= 0, q0 < b, b > 0;
+    let rt = u1 * b + u0 - (q1p + 1) * d;
+    lemma_d21_identity(b, u1, u0, d, v, q1p, q0, k, rt);
+    assert(u1 * k >= 0) by (nonlinear_arith) requires u1 >= 0, k >= 0;
+    assert(u0 * (b - d) >= 0) by (nonlinear_arith) requires u0 >= 0, b - d >= 0;
+    assert(q0 * d >= 0) by (nonlinear_arith) requires q0 >= 0, d >= 0;
+    assert(rt >= -d) by (nonlinear_arith) requires b * rt >= -(b * d), b > 0;
+    assert((q0 - b) * d >= (q0 - b) * b) by (nonlinear_arith) requires q0 - b <= 0, d <= b;
+    assert(q0 * d - b * d == (q0 - b) * d) by (nonlinear_arith);
+    assert(rt >= q0 - b) by (nonlinear_arith) requires b * rt >= (q0 - b) * b, b > 0;
+    assert(rt >= q0 + 1 - b) by {
+        if rt == q0 - b {
+            assert((q0 - b) * d > (q0 - b) * b) by (nonlinear_arith) requires q0 - b < 0, d < b;
+            assert(b * rt == b * (q0 - b));
+            assert(b * (q0 - b) == (q0 - b) * b) by (nonlinear_arith);
+            assert(false);
+        }
+    }
+    assert(u1 * k <= (d - 1) * d) by (nonlinear_arith) requires 0 <= u1 <= d - 1, 0 <= k <= d;
+    assert(u0 * (b - d) <= (b - 1) * (b - d)) by (nonlinear_arith) requires 0 <= u0 <= b - 1, b - d >= 0;
+    let m = if b - d >= q0 { b - d } else { q0 };
+    assert((b - d) * (b - d) + q0 * d <= m * b) by (nonlinear_arith)
+        requires m >= b - d, m >= q0, b - d >= 0, d >= 0, q0 >= 0;
+    assert((d - 1) * d + (b - 1) * (b - d) + q0 * d - b * d == (b - d) * (b - d) + q0 * d - b) by (nonlinear_arith);
+    assert(b * rt <= m * b - b);
+    assert(rt < m) by (nonlinear_arith) requires b * rt <= m * b - b, b > 0;
+}
+
+/// v*u1 + (u1, u0) does not overflow two words (precondition of addhilo)
+proof fn lemma_d21_addhilo_pre(u1: int, u0: int, d: int, v: int, q1: int, q0: int)
+    requires
+        0 <= d < B(), 0 <= v < B(), 0 <= u1 < d, 0 <= u0 < B(),
+        (B() + v) * d <= B() * B() - 1,
+        q1 * B() + q0 == v * u1,
+    ensures (q1 * B() + q0) + (u1 * B() + u0) < B() * B()
+{
+    let b = B();
+    assert((b + v) * u1 <= (b + v) * (d - 1)) by (nonlinear_arith) requires u1 <= d - 1, b + v >= 0;
+    assert((b + v) * (d - 1) == (b + v) * d - (b + v)) by (nonlinear_arith);
+    assert((b + v) * u1 == u1 * b + v * u1) by (nonlinear_arith);
+}
+
+/// the wrapping computation r = u0 - q1*d (mod B) yields rt mod B
+proof fn lemma_d21_wrap(u1: int, u0: int, d: int, q1p: int, q1: int, m: int, r: int)
+    requires
+        0 <= u0 < B(), 0 <= d < B(), 0 <= q1p < B(),
+        q1 == (if q1p + 1 >= B() { q1p + 1 - B() } else { q1p + 1 }),
+        m == (q1 * d) % B(),
+        r == (if u0 - m >= 0 { u0 - m } else { u0 - m + B() }),
+        -d <= u1 * B() + u0 - (q1p + 1) * d < B(),
+    ensures
+        ({ let rt = u1 * B() + u0 - (q1p + 1) * d; r == (if rt >= 0 { rt } else { rt + B() }) }),
+{
+    let b = B(); let a = (q1p + 1) * d;
+    let rt = u1 * b + u0 - a;
+    assert(q1 == (q1p + 1) % b) by {
+        if q1p + 1 == b { lemma_mod_self_0(b); } else { lemma_small_mod((q1p + 1) as nat, b as nat); }
+    }
+    lemma_mul_mod_noop_left(q1p + 1, d, b);
+    assert(m == a % b);
+    lemma_mod_bound(a, b);
+    assert(r == (u0 - m) % b) by {
+        if u0 - m >= 0 { lemma_small_mod((u0 - m) as nat, b as nat); }
+        else { lemma_mod_add_multiples_vanish(u0 - m, b); lemma_small_mod((u0 - m + b) as nat, b as nat); }
+    }
+    lemma_sub_mod_noop_right(u0, a, b);
+    assert((u0 - m) % b == (u0 - a) % b);
+    lemma_mod_multiples_vanish(u1, u0 - a, b);
+    assert(b * u1 + (u0 - a) == rt) by (nonlinear_arith) requires rt == u1 * b + u0 - a;
+    assert(rt % b == (u0 - a) % b);
+    if rt >= 0 { lemma_small_mod(rt as nat, b as nat); }
+    else { lemma_mod_add_multiples_vanish(rt, b); lemma_small_mod((rt + b) as nat, b as nat); }
+}
+
+/// state after the first (unlikely-branch-free) adjustment step
+proof fn lemma_d21_fix1(u1: int, u0: int, d: int, q1p: int, q0: int, q10: int, r0: int, q1: int, r: int)
+    requires
+        B() / 2 <= d < B(), 0 <= u1 < d, 0 <= u0 < B(), 0 <= q1p < B(), 0 <= q0 < B(),
+        ({ let rt = u1 * B() + u0 - (q1p + 1) * d;
+           &&& rt >= -d
+           &&& rt >= q0 + 1 - B()
+           &&& (rt < B() - d || rt < q0)
+           &&& r0 == (if rt >= 0 { rt } else { rt + B() }) }),
+        q10 == (if q1p + 1 >= B() { q1p + 1 - B() } else { q1p + 1 }),
+        q1 == (if q0 < r0 { if q10 - 1 < 0 { q10 - 1 + B() } else { q10 - 1 } } else { q10 }),
+        r == (if q0 < r0 { if r0 + d >= B() { r0 + d - B() } else { r0 + d } } else { r0 }),
+    ensures
+        q1 * d + r == u1 * B() + u0,
+        0 <= r < B(), 0 <= q1 < B(),
+        r >= d ==> q1 < B() - 1,
+{
+    let b = B(); let uu = u1 * b + u0;
+    let rt = uu - (q1p + 1) * d;
+    assert((q1p + 1) * d == q1p * d + d) by (nonlinear_arith);
+    lemma_d21_uu_bound(b, u1, u0, d);
+    if rt >= 0 {
+        assert(q1p + 1 < b) by (nonlinear_arith) requires (q1p + 1) * d <= uu, uu < d * b, d > 0;
+    }
+    assert(q1 * d + r == uu) by (nonlinear_arith)
+        requires (q1 == q1p && r == rt + d) || (q1 == q1p + 1 && r == rt),
+            rt == uu - (q1p + 1) * d, (q1p + 1) * d == q1p * d + d;
+    assert(r >= d ==> q1 < b - 1) by (nonlinear_arith) requires q1 * d + r == uu, uu < d * b, d > 0;
+}
+
+// ---------------------------------------------------------------- div3by2 (Knuth Algorithm Q, 3-by-2 form)
+/// Knuth 4.3.1 Theorem B, 3-by-2 form, integer-only
+proof fn lemma_qhat_bound(qh: int, x: int, v1: int, v0: int, u0: int, q: int)
+    requires
+        B() / 2 <= v1 < B(), 0 <= v0 < B(), 0 <= u0 < B(), 0 <= x,
+        0 <= qh <= B() - 1, qh * v1 <= x,
+        q >= 0,
+        q * (v1 * B() + v0) <= x * B() + u0 < (q + 1) * (v1 * B() + v0),
+    ensures qh <= q + 2
+{
+    if qh >= q + 3 {
+        let b = B();
+        assert((q + 3) * v1 <= qh * v1) by (nonlinear_arith) requires q + 3 <= qh, v1 >= 0;
+        assert((q + 3) * v1 * b <= x * b) by (nonlinear_arith) requires (q + 3) * v1 <= x, b > 0;
+        assert((q + 1) * (v1 * b + v0) < (q + 1) * ((v1 + 1) * b)) by (nonlinear_arith) requires q + 1 > 0, v0 < b;
+        assert((q + 1) * ((v1 + 1) * b) == (q + 1) * (v1 + 1) * b) by (nonlinear_arith);
+        assert((q + 3) * v1 < (q + 1) * (v1 + 1)) by (nonlinear_arith)
+            requires (q + 3) * v1 * b < (q + 1) * (v1 + 1) * b, b > 0;
+        assert((q + 3) * v1 == q * v1 + 3 * v1) by (nonlinear_arith);
+        assert((q + 1) * (v1 + 1) == q * v1 + q + v1 + 1) by (nonlinear_arith);
+        assert(q >= b);
+        assert(false);
+    }
+}
+
+/// the true quotient qq = uu / vv brackets uu
+proof fn lemma_d32_setup(v1: int, v0: int, x: int, u0: int)
+    requires B() / 2 <= v1 < B(), 0 <= v0 < B(), 0 <= x, 0 <= u0 < B()
+    ensures ({
+        let vv = v1 * B() + v0; let uu = x * B() + u0; let qq = uu / vv;
+        &&& vv > 0 &&& uu >= 0 &&& qq >= 0 &&& qq * vv <= uu < (qq + 1) * vv })
+{
+    let vv = v1 * B() + v0; let uu = x * B() + u0; let qq = uu / vv;
+    assert(vv >= B() / 2 * B()) by (nonlinear_arith) requires vv == v1 * B() + v0, v1 >= B() / 2, v0 >= 0;
+    assert(vv > 0);
+    lemma_fundamental_div_mod(uu, vv);
+    lemma_mod_bound(uu, vv);
+    assert(uu >= 0) by (nonlinear_arith) requires uu == x * B() + u0, x >= 0, u0 >= 0;
+    lemma_div_pos_is_pos(uu, vv);
+    assert(vv * qq == qq * vv) by (nonlinear_arith);
+    assert(qq * vv <= uu < (qq + 1) * vv) by (nonlinear_arith) requires uu == vv * qq + uu % vv, 0 <= uu % vv < vv;
+}
+
+/// the 2-by-1 estimate is never below the true quotient
+proof fn lemma_d32_qhat_lower(qi: int, ri: int, x: int, v1: int, v0: int, u0: int, qq: int)
+    requires
+        B() / 2 <= v1 < B(), 0 <= v0 < B(), 0 <= u0 < B(), 0 <= x, qq >= 0,
+        qi * v1 + ri == x, 0 <= ri < v1,
+        qq * (v1 * B() + v0) <= x * B() + u0,
+    ensures qq <= qi
+{
+    let b = B(); let vv = v1 * b + v0; let uu = x * b + u0;
+    assert(qq * (v1 * b) <= qq * vv) by (nonlinear_arith) requires qq >= 0, vv == v1 * b + v0, v0 >= 0;
+    assert(qq * (v1 * b) == qq * v1 * b) by (nonlinear_arith);
+    assert(qq * v1 < x + 1) by (nonlinear_arith) requires qq * v1 * b <= uu, uu == x * b + u0, u0 < b, b > 0;
+    assert(qq < qi + 1) by (nonlinear_arith) requires qq * v1 <= qi * v1 + ri, ri < v1, v1 > 0;
+}
+
+/// the loop test `rem >= B || quo*v0 <= rem*B + u0` decides quo*vv <= uu, i.e. quo <= qq
+proof fn lemma_d32_done(qi: int, ri: int, x: int, v1: int, v0: int, u0: int, qq: int, done: bool)
+    requires
+        B() / 2 <= v1 < B(), 0 <= v0 < B(), 0 <= u0 < B(), 0 <= qi < B(), 0 <= ri, qq >= 0,
+        qi * v1 + ri == x,
+        qq * (v1 * B() + v0) <= x * B() + u0 < (qq + 1) * (v1 * B() + v0),
+        done == (ri >= B() || qi * v0 <= ri * B() + u0),
+    ensures
+        done == (qi <= qq), !done ==> qi >= 1,
+{
+    let b = B(); let vv = v1 * b + v0; let uu = x * b + u0;
+    assert(vv > 0) by (nonlinear_arith) requires vv == v1 * b + v0, v1 >= 1, v0 >= 0, b > 0;
+    assert(qi * vv - uu == qi * v0 - ri * b - u0) by (nonlinear_arith)
+        requires vv == v1 * b + v0, uu == x * b + u0, qi * v1 + ri == x;
+    if ri >= b {
+        assert(qi * v0 < b * b) by (nonlinear_arith) requires 0 <= qi, qi < b, 0 <= v0, v0 < b;
+        assert(ri * b >= b * b) by (nonlinear_arith) requires ri >= b, b > 0;
+    }
+    assert(done == (qi * vv <= uu));
+    if !done {
+        assert(qi > qq) by (nonlinear_arith) requires qi * vv > uu, uu >= qq * vv, vv > 0;
+    } else {
+        assert(qi <= qq) by (nonlinear_arith) requires qi * vv <= uu, uu < (qq + 1) * vv, vv > 0;
+    }
+}
+
+// ---------------------------------------------------------------- Reciprocal::new
+/// normalisation by the leading-zero count: d << lz == d * 2^lz, top bit set
+proof fn lemma_recip_new(d: u64, s: u32)
+    requires d != 0, s == vstd::std_specs::bits::u64_leading_zeros(d)
+    ensures
+        s < 64,
+        (d << s) as int == d as int * p2(s as nat),
+        (d << s) >= 0x8000_0000_0000_0000u64,
+        (d << s) as int / p2(s as nat) == d as int,
+        d as int >= B() / 2 ==> (s == 0 && (d << s) == d),
+{
+    lemma_lz64(d);
+    lemma_pow2_64();
+    let ps = p2(s as nat); let di = d as int;
+    lemma_pow2_pos(s as nat);
+    lemma_pow2_adds((64 - s) as nat, s as nat);
+    lemma_pow2_adds((63 - s) as nat, s as nat);
+    assert(di * ps < B()) by (nonlinear_arith) requires di < p2((64 - s) as nat), p2((64 - s) as nat) * ps == B(), ps > 0, di >= 0;
+    assert(di * ps >= B() / 2) by (nonlinear_arith) requires di >= p2((63 - s) as nat), p2((63 - s) as nat) * ps == B() / 2, ps > 0;
+    lemma_u64_shl_mod(d, s);
+    lemma_small_mod((di * ps) as nat, B() as nat);
+    lemma_div_multiples_vanish(di, ps);
+    assert(di * ps == ps * di) by (nonlinear_arith);
+    if di >= B() / 2 {
+        if s > 0 { lemma_pow2_strictly_increases((64 - s) as nat, 64); if s > 1 { lemma_pow2_strictly_increases((64 - s) as nat, 63); } }
+        assert(s == 0);
+        assert(d << 0u32 == d) by (bit_vector);
+    }
 }
 
 //@@ subst \b(Self|Uint)::(ZERO|ONE|MAX|BITS|LOG2_BITS)\b(?!\() => \1::\2()
@@ -36,9 +306,8 @@ pub const fn reciprocal(d: Word) -> (ret__: Word)
     unimplemented!()
 }
 //@@ end
-//@@ fn src/uint/div_limb.rs | impl Reciprocal | new | stub | props C02 C11
+//@@ fn src/uint/div_limb.rs | impl Reciprocal | new | body | props C02 C11
 impl Reciprocal {
-#[verifier::external_body]
 pub const fn new(divisor: NonZero<Limb>) -> (ret__: Self)
 //@+
     requires divisor.0.0 != 0
@@ -46,23 +315,131 @@ pub const fn new(divisor: NonZero<Limb>) -> (ret__: Self)
         divisor.0.0 as int >= B() / 2 ==> (ret__.shift == 0 && ret__.divisor_normalized == divisor.0.0)
 //@-
 {
-    unimplemented!()
-}
+        let divisor = divisor.0;
+        // Assuming this is constant-time for primitive types.
+        let shift = divisor.0.leading_zeros();
+        // Will not panic since divisor is non-zero
+//@+
+        proof { lemma_recip_new(divisor.0, shift); }
+//@-
+        let divisor_normalized = divisor.0 << shift;
+        Self {
+            divisor_normalized,
+            shift,
+            reciprocal: reciprocal(divisor_normalized),
+        }
+    }
 }
 //@@ end
-//@@ fn src/uint/div_limb.rs | - | div2by1 | stub | props C02 C11
-#[verifier::external_body]
+//@@ fn src/uint/div_limb.rs | impl Reciprocal | default | body | props C02 C11
+impl Reciprocal {
+pub const fn default() -> (ret__: Self)
+//@+
+    ensures ret__.wf(), ret__.shift == 0, ret__.divisor_normalized == u64::MAX, ret__.reciprocal == 1, ret__.dv() == B() - 1
+//@-
+{
+//@+
+        proof { lemma_pow2_64(); assert((B() + 1) * (B() - 1) == B() * B() - 1) by (nonlinear_arith); lemma_div_basics(u64::MAX as int); assert(p2(0) == 1); }
+//@-
+        Self {
+            divisor_normalized: Word::MAX,
+            shift: 0,
+            // The result of calling `reciprocal(Word::MAX)`
+            // This holds both for 32- and 64-bit versions.
+            reciprocal: 1,
+        }
+    }
+}
+//@@ end
+//@@ fn src/uint/div_limb.rs | impl Reciprocal | divisor | body | props C02 C11
+impl Reciprocal {
+pub const fn divisor(&self) -> (ret__: NonZero<Limb>)
+//@+
+    requires self.shift < 64
+    ensures ret__.0.0 as int == self.dv()
+//@-
+{
+//@+
+        proof { lemma_u64_shr_div(self.divisor_normalized, self.shift); }
+//@-
+        NonZero(Limb(self.divisor_normalized >> self.shift))
+    }
+}
+//@@ end
+//@@ fn src/uint/div_limb.rs | impl Reciprocal | shift | body | props C02 C11
+impl Reciprocal {
+pub const fn shift(&self) -> (ret__: u32)
+//@+
+    ensures ret__ == self.shift
+//@-
+{
+        self.shift
+    }
+}
+//@@ end
+//@@ fn src/uint/div_limb.rs | - | div2by1 | body | props C02 C11
 pub const fn div2by1(u1: Word, u0: Word, reciprocal: &Reciprocal) -> (ret__: (Word, Word))
 //@+
     requires reciprocal.wf(), u1 < reciprocal.divisor_normalized
     ensures ret__.0 as int * reciprocal.divisor_normalized as int + ret__.1 as int == u1 as int * B() + u0 as int, ret__.1 < reciprocal.divisor_normalized
 //@-
 {
-    unimplemented!()
+    let d = reciprocal.divisor_normalized;
+//@+
+    proof { assert((1u64 << 63) == 0x8000_0000_0000_0000u64) by (bit_vector); assert(B() / 2 == 0x8000_0000_0000_0000int); }
+//@-
+    debug_assert!(d >= (1 << (Word::BITS - 1)));
+    debug_assert!(u1 < d);
+    let (q1, q0) = mulhilo(reciprocal.reciprocal, u1);
+//@+
+    proof { lemma_d21_addhilo_pre(u1 as int, u0 as int, d as int, reciprocal.reciprocal as int, q1 as int, q0 as int); }
+//@-
+    let (q1, q0) = addhilo(q1, q0, u1, u0);
+//@+
+    let ghost q1p = q1 as int;
+    let ghost rt = u1 as int * B() + u0 as int - (q1p + 1) * d as int;
+    proof {
+        let b = B(); let v = reciprocal.reciprocal as int;
+        assert(q1 as int * b + q0 as int == (b + v) * (u1 as int) + u0 as int) by (nonlinear_arith)
+            requires q1 as int * b + q0 as int == (v * (u1 as int)) + (u1 as int * b + u0 as int);
+        lemma_div2by1(u1 as int, u0 as int, d as int, v, q1 as int, q0 as int);
+    }
+//@-
+    let q1 = q1.wrapping_add(1);
+    let r = u0.wrapping_sub(q1.wrapping_mul(d));
+//@+
+    let ghost m = q1.wrapping_mul(d);
+    proof {
+        assert(m as int == (q1 as int * d as int) % B());
+        lemma_d21_wrap(u1 as int, u0 as int, d as int, q1p, q1 as int, m as int, r as int);
+    }
+    let ghost r0 = r; let ghost q10 = q1;
+//@-
+    let r_gt_q0 = ConstChoice::from_word_lt(q0, r);
+    let q1 = r_gt_q0.select_word(q1, q1.wrapping_sub(1));
+    let r = r_gt_q0.select_word(r, r.wrapping_add(d));
+//@+
+    proof { lemma_d21_fix1(u1 as int, u0 as int, d as int, q1p, q0 as int, q10 as int, r0 as int, q1 as int, r as int); }
+//@-
+    // If this was a normal `if`, we wouldn't need wrapping ops, because there would be no overflow.
+    // But since we calculate both results either way, we have to wrap.
+    // Added an assert to still check the lack of overflow in debug mode.
+    debug_assert!(r < d || q1 < Word::MAX);
+//@+
+    let ghost q11 = q1; let ghost r1 = r;
+//@-
+    let r_ge_d = ConstChoice::from_word_le(d, r);
+    let q1 = r_ge_d.select_word(q1, q1.wrapping_add(1));
+    let r = r_ge_d.select_word(r, r.wrapping_sub(d));
+//@+
+    proof {
+        assert((q11 as int + 1) * d as int == q11 as int * d as int + d as int) by (nonlinear_arith);
+    }
+//@-
+    (q1, r)
 }
 //@@ end
-//@@ fn src/uint/div_limb.rs | - | div3by2 | stub | props C02 C11
-#[verifier::external_body]
+//@@ fn src/uint/div_limb.rs | - | div3by2 | body | props C02 C11
 pub const fn div3by2(
     u2: Word,
     u1: Word,
@@ -75,7 +452,76 @@ pub const fn div3by2(
     ensures ret__ as int == min_int(B() - 1, ((u2 as int * B() + u1 as int) * B() + u0 as int) / (v1_reciprocal.divisor_normalized as int * B() + v0 as int))
 //@-
 {
-    unimplemented!()
+    debug_assert!(v1_reciprocal.shift == 0);
+    debug_assert!(u2 <= v1_reciprocal.divisor_normalized);
+//@+
+    let ghost v1 = v1_reciprocal.divisor_normalized as int;
+    let ghost vv = v1 * B() + v0 as int;
+    let ghost x = u2 as int * B() + u1 as int;
+    let ghost uu = x * B() + u0 as int;
+    let ghost qq = uu / vv;
+    proof { lemma_d32_setup(v1, v0 as int, x, u0 as int); }
+//@-
+    // This method corresponds to Algorithm Q:
+    // https://janmr.com/blog/2014/04/basic-multiple-precision-long-division/
+    let q_maxed = ConstChoice::from_word_eq(u2, v1_reciprocal.divisor_normalized);
+    let (mut quo, rem) = div2by1(q_maxed.select_word(u2, 0), u1, v1_reciprocal);
+    // When the leading dividend word equals the leading divisor word, cap the quotient
+    // at Word::MAX and set the remainder to the sum of the top dividend words.
+    quo = q_maxed.select_word(quo, Word::MAX);
+    let mut rem = q_maxed.select_wide_word(rem as WideWord, (u2 as WideWord) + (u1 as WideWord));
+//@+
+    proof {
+        assert(quo as int * v1 + rem as int == x) by {
+            if q_maxed.t() {
+                assert((B() - 1) * v1 + v1 + u1 as int == v1 * B() + u1 as int) by (nonlinear_arith);
+            } else {}
+        }
+        lemma_qhat_bound(quo as int, x, v1, v0 as int, u0 as int, qq);
+        if !q_maxed.t() {
+            lemma_d32_qhat_lower(quo as int, rem as int, x, v1, v0 as int, u0 as int, qq);
+        }
+    }
+//@-
+    let mut i = 0;
+    while i < 2
+//@+
+        invariant
+            0 <= i <= 2,
+            v1 == v1_reciprocal.divisor_normalized as int, B() / 2 <= v1 < B(),
+            vv == v1 * B() + v0 as int, uu == x * B() + u0 as int, qq * vv <= uu < (qq + 1) * vv, qq >= 0, vv > 0,
+            quo as int * v1 + rem as int == x,
+            0 <= rem as int <= 2 * B() + (i as int) * B(),
+            quo as int <= qq + 2 - i,
+            quo as int >= min_int(B() - 1, qq),
+        decreases 2 - i
+//@-
+    {
+//@+
+        proof { lemma_mul_u64_bound(quo, v0); }
+//@-
+        let qy = (quo as WideWord) * (v0 as WideWord);
+        let rx = (rem << Word::BITS) | (u0 as WideWord);
+        // If r < b and q*y[-2] > r*x[-1], then set q = q - 1 and r = r + v1
+        let done = ConstChoice::from_word_nonzero((rem >> Word::BITS) as Word)
+            .or(ConstChoice::from_wide_word_le(qy, rx));
+//@+
+        proof {
+            assert(((rem >> 64) as u64 != 0) == (rem >= 0x1_0000_0000_0000_0000u128)) by (bit_vector) requires rem < 0x4_0000_0000_0000_0000u128;
+            assert(rem < 0x1_0000_0000_0000_0000u128 ==> ((rem << 64) | (u0 as u128)) == rem * 0x1_0000_0000_0000_0000u128 + (u0 as u128)) by (bit_vector);
+            lemma_d32_done(quo as int, rem as int, x, v1, v0 as int, u0 as int, qq, done.t());
+        }
+//@-
+        quo = done.select_word(quo.wrapping_sub(1), quo);
+        rem = done.select_wide_word(rem + (v1_reciprocal.divisor_normalized as WideWord), rem);
+//@+
+        proof {
+            assert((quo as int + 1) * v1 == quo as int * v1 + v1) by (nonlinear_arith);
+        }
+//@-
+        i += 1;
+    }
+    quo
 }
 //@@ end
 //@@ fn src/uint/div_limb.rs | - | div_rem_limb_with_reciprocal | stub | props C02 C11
@@ -115,6 +561,17 @@ pub const fn rem_limb_with_reciprocal_wide<const L: usize>(
 //@+
     requires L >= 1, reciprocal.wf(), reciprocal.dv() > 0, reciprocal.divisor_normalized as int == reciprocal.dv() * p2(reciprocal.shift as nat)
     ensures ret__.0 as int == (lo_hi.0.v() + lo_hi.1.v() * bp(L as nat)) % reciprocal.dv()
+//@-
+{
+    unimplemented!()
+}
+//@@ end
+//@@ fn src/uint/div_limb.rs | - | mul_rem | stub | props C02 C11
+#[verifier::external_body]
+pub const fn mul_rem(a: Limb, b: Limb, d: NonZero<Limb>) -> (ret__: Limb)
+//@+
+    requires d.0.0 != 0
+    ensures ret__.0 as int == (a.0 as int * b.0 as int) % (d.0.0 as int)
 //@-
 {
     unimplemented!()
